@@ -109,4 +109,12 @@ def write(prop, ev):
         json.dump(ev, f, indent=1, sort_keys=True)
         f.write("\n")
     os.replace(tmp, path)
+    if ev.get("tier") == "thorough":
+        # the registered evidence file is rewritten by every run (the quick tier included); the last thorough run is also
+        # kept next to it so that a later quick run does not erase what the deep exploration covered
+        keep = os.path.join(core.VERIF_DIR, "evidence", f"{prop}.thorough.json")
+        with open(keep + ".tmp", "w") as f:
+            json.dump(ev, f, indent=1, sort_keys=True)
+            f.write("\n")
+        os.replace(keep + ".tmp", keep)
     return path
